@@ -359,7 +359,12 @@ def shapes(tier):
         out.append(("text/jcc:s0/%s" % mods_name(spec["mods"]), spec))
     for mods in ([{"op": "insert_function", "name": "newfn", "patch": "func_body"}],
                  [{"op": "insert_function", "name": "newfn", "patch": "func_simple"}, ins("b1", 1, "call:newfn")],
-                 [{"op": "insert_function", "name": "newfn", "patch": "func_body"}, dele("b1", 0, 3)]):
+                 [{"op": "insert_function", "name": "newfn", "patch": "func_body"}, dele("b1", 0, 3)],
+                 # two inserted functions in one context: each keeps its own rows in the three tables
+                 [{"op": "insert_function", "name": "newfn", "patch": "func_simple"},
+                  {"op": "insert_function", "name": "newfn2", "patch": "func_body"}],
+                 [{"op": "insert_function", "name": "newfn", "patch": "func_body"},
+                  {"op": "insert_function", "name": "newfn2", "patch": "func_simple"}, ins("b1", 1, "call:newfn2")]):
         spec = text_layout("jcc:s0", annots=False)
         spec["sections"][0]["blocks"][0]["align"] = 1  # a user alignment entry keeps gtirb_layout from guessing alignments
         spec["mods"] = copy.deepcopy(mods)
